@@ -70,6 +70,9 @@ type runner struct {
 	sess                                  bool // ServeConn serves p9p.SSession(scripted Session) instead of the gate Handler
 	shutdownNetErr                        bool // end the schedule by a read error that is a net.Error reporting neither Timeout nor Temporary
 	shutdownEOF                           bool // end the schedule by a peer close (long schedules: a context cancel would cancel 65536 contexts)
+	comp                                  []sx.S // fs mode: the session-level history (sends, returns in order, the fault) for the composed model
+	compSkip                              bool   // ... not emitted: the order of some returns was not observed
+	composed, composedObs                 string // ... the (composed ...) case and what the harness read off the fid table and the mock entries
 }
 
 func (r *runner) fail(key, what string) {
